@@ -30,6 +30,17 @@ NAME: /[a-z]+/
 NUM: /[0-9]+/
 %ignore " "
 ''', ['a', 'key', ':', '7', ',', '[', ']', '+', '-', 'b']),
+    # a ?rule's multi-child alternative next to an inlined rule with the same children; tokens that contain non-identifier characters
+    'show': ('''
+start: stmt+
+stmt: "show" _pair ";" -> show | "sum" sum ";" -> s | "let" VAR "be" DIM+ ";" -> let
+_pair: NAME "," NAME
+?sum: NAME | NAME "+" NAME
+NAME: /[a-z]+/
+VAR: /\\$[a-z]+/
+DIM: /[0-9]+\\.[0-9]+[a-z]+/
+%ignore " "
+''', ['show', 'sum', 'a', ',', '+', ';', 'let', '$x', 'be', '1.5em']),
     'json': ('''
 ?start: value
 ?value: dict | list | STR | NUM | "true" -> t | "null" -> n
